@@ -47,6 +47,7 @@ Alphabet ==
      [k |-> "chclose", ch |-> 7, code |-> 404, text |-> "x"],
      [k |-> "chcloseok", ch |-> 7],
      [k |-> "conncloseok", ch |-> 0],
+     [k |-> "connclose", ch |-> 0, code |-> 320, text |-> "bye"],
      M(1, "basic.consume-ok"), M(2, "basic.consume-ok"),
      M(2, "queue.declare-ok"), M(7, "queue.declare-ok"), M(1, "basic.get-empty"),
      M(1, "basic.qos"), M(1, "basic.publish"), M(2, "queue.declare"), M(1, "channel.open"),
@@ -70,6 +71,7 @@ FrameOf(a) ==
       [] a.k = "chclose" -> [type |-> "method", ch |-> a.ch, m |-> "channel.close", code |-> a.code, text |-> a.text]
       [] a.k = "chcloseok" -> [type |-> "method", ch |-> a.ch, m |-> "channel.close-ok"]
       [] a.k = "conncloseok" -> [type |-> "method", ch |-> 0, m |-> "connection.close-ok"]
+      [] a.k = "connclose" -> [type |-> "method", ch |-> 0, m |-> "connection.close", code |-> a.code, text |-> a.text]
       [] OTHER -> [type |-> "method", ch |-> a.ch, m |-> MethodName(a.name), consumer_tag |-> "t1"]
 
 Base ==
@@ -103,7 +105,7 @@ Emit == PrintT(<<"CASE", ToJson(hist')>>)
 
 -----------------------------------------------------------------------------
 \* C07 on the model: every violation is contained
-AllowedFatal == {"", "FrameUnexpected", "ReceivedFrameWithBogusChannelId", "UnknownConsumerTag", "DuplicateConsumerTag"}
+AllowedFatal == {"", "EventLoopClientDropped", "FrameUnexpected", "ReceivedFrameWithBogusChannelId", "UnknownConsumerTag", "DuplicateConsumerTag"}
 Contained ==
     /\ w.fatal \in AllowedFatal
     /\ w.phase = "cliexc" =>
